@@ -802,6 +802,54 @@ MUTANTS = [
          old="                        field_names.iter().filter(|(_, skip)| !skip).map(",
          new="                        field_names.iter().filter(|(_, _skip)| true).map(",
          expect="C12.a/derive-fixtures/shape/test::EnumWithSkip"),
+    dict(id="C12.e-range-start-end-swapped", prop="C12", file="crates/serialize/src/decode.rs",
+         old="        let end = T::decode(decoder, plugin, session)?;\n        Ok(start..end)",
+         new="        let end = T::decode(decoder, plugin, session)?;\n        Ok(end..start)",
+         expect="C12.e/main/field-order/Range<T>"),
+    dict(id="C12.e-derive-named-struct-decodes-in-reverse", prop="C12", file="crates/serialize_derive/src/lib.rs",
+         old="            let field_decodes = fields.named.iter().map(|field| {", nth=0,
+         new="            let field_decodes = fields.named.iter().rev().map(|field| {",
+         expect="C12.e/derive-fixtures/field-order/"),
+    dict(id="C03.g-fast-path-orders-epochs", prop="C03", file=CG + "fast_path.rs",
+         old="        if last_verified.0 != caller.timestamp() {",
+         new="        if last_verified.0 < caller.timestamp() {",
+         expect="C03.g/"),
+    dict(id="C07.a-last-verified-written-conditionally", prop="C07", file=CG + "database.rs",
+         old="""            self.engine()
+                .computation_graph
+                .database
+                .last_verified
+                .insert(
+                    *self.query_id(),
+                    LastVerified(current_timestamp),
+                    &mut tx,
+                )
+                .await;
+
+            for edge in forward_edge_order.0.iter() {""",
+         new="""            if clean_existing_forward_edges {
+            self.engine()
+                .computation_graph
+                .database
+                .last_verified
+                .insert(
+                    *self.query_id(),
+                    LastVerified(current_timestamp),
+                    &mut tx,
+                )
+                .await;
+            }
+
+            for edge in forward_edge_order.0.iter() {""",
+         expect="C07.a/"),
+    dict(id="C14.b-derive-drops-module-path", prop="C14", file="crates/identifiable_derive_lib/src/lib.rs",
+         old="""                    module_path!(),
+                    "::",
+                    stringify!(#name)
+                );""",
+         new="""                    stringify!(#name)
+                );""",
+         expect="C14.b/derived-names-carry-the-full-path"),
     # ------------------------------------------------------------------ C09.f (D5)
     dict(id="C09.f-D5-fold-heap-in-arbitrary-order", prop="C09", file=ST + "key_of_set_map/cache.rs",
          old="""        let mut ordered = log.iter().collect::<Vec<_>>();
